@@ -1,5 +1,6 @@
 import VtModel.Basic
 import VtModel.Json
+import VtModel.TileJson
 import VtModel.Prim
 import VtModel.Mvt
 import VtModel.Vpl
@@ -380,6 +381,30 @@ def lookupSeq (validateFirst : Bool) (load : Nat → Outcome (List Fmt.Range)) (
     let r := lookupTile validateFirst load count c k pos
     r.1 :: lookupSeq validateFirst load count r.2 rest
 
+/-! ## coverage of a run of tile ids (`pmtiles/reader.rs` `include_run`, since 0189261d)
+
+Within one zoom level `z` the ids are positions `0 ‥ 4^z − 1` on a Hilbert curve.  `include_run`
+cuts the positions `pos ‥ pos + rem − 1` into blocks `(p, k)` of `4^k` consecutive positions with
+`4^k ∣ p` (aligned) and adds the two corners of the `2^k × 2^k` square such a block covers.
+(That an aligned block of the curve is an aligned square is a property of the Hilbert curve; it is
+not proved here — C16/C03 compare the resulting coverage with independent decoders.) -/
+
+/-- the `while k < z && pos % 4^(k+1) == 0 && 4^(k+1) <= limit { k += 1 }` loop -/
+def blockExpGo (z pos limit : Nat) : Nat → Nat → Nat
+  | 0, k => k
+  | f + 1, k => if k < z ∧ pos % 4 ^ (k + 1) = 0 ∧ 4 ^ (k + 1) ≤ limit then blockExpGo z pos limit f (k + 1) else k
+
+def blockExp (z pos limit : Nat) : Nat := blockExpGo z pos limit z 0
+
+/-- the blocks `(start, k)` the walk visits for `rem` positions starting at `pos` (inside level `z`) -/
+def runBlocks (z : Nat) : Nat → Nat → Nat → List (Nat × Nat)
+  | 0, _, _ => []
+  | f + 1, pos, rem =>
+    if rem = 0 then []
+    else
+      let k := blockExp z pos rem
+      (pos, k) :: runBlocks z f (pos + 4 ^ k) (rem - 4 ^ k)
+
 /-! ## verdict protocol -/
 
 def verdictO {α : Type} : Outcome α → String
@@ -424,6 +449,16 @@ def pmFind (input : Bytes) (ids : List Nat) : Outcome Unit :=
   | .err => .err
   | .panic => .panic
 
+/-- `TileJSON::try_from(&Blob)`: UTF-8 check, JSON parser, `to_object` (the document must be an object),
+    `TileJSON::from_object` (w-json's `VtModel.TileJson.fromObject`, `none` = `Err`) -/
+def tileJsonBlob (input : Bytes) : Json.Res Unit :=
+  match jsonBlob input with
+  | .ok (.obj o) => if (TileJson.fromObject TileJson.floatNum o).isSome then .ok () else .err
+  | .ok _ => .err
+  | .err => .err
+  | .panic s => .panic s
+  | .fuel => .fuel
+
 def vplVerdict (input : Bytes) : String :=
   match String.fromUTF8? (ByteArray.mk input.toArray) with
   | none => "err"
@@ -441,6 +476,7 @@ def handle (args : List String) : String :=
     | some bs =>
       match ep with
       | "json" => verdictR (jsonBlob bs)
+      | "tilejson" => verdictR (tileJsonBlob bs)
       | "csv" => verdictO (csvRows false 0x2c bs)
       | "mvt" => verdictO (Mvt.decodeTile bs)
       | "pbfstr" => verdictO (pbfStrBlob false bs).out
